@@ -47,6 +47,7 @@ class Recorder:
         self.notes: List[str] = []
         self.counts: Dict[str, int] = {}
         self.selfcheck: List[str] = []
+        self.errors: List[str] = []
 
     # an obligation that was discharged
     def ok(self, rule: str, instance: str, detail: str = "") -> None:
